@@ -67,15 +67,33 @@ def run_one(schema: dict, rng, exercise: int) -> dict:
     # rendering: independent reading of every field annotation (Render.rty) + what the real type_name says + whether the
     # generated error path of a required field contains it
     render_cases = []
+    ident_cases = []
+    import_cases = []
     contain = {"checked": 0, "missing": []}
     if d and sr.build_error is None:
         import dataclasses
-        from harness import c17_render
+        from harness import c17_render, c17_imports
         from mashumaro.core.meta.helpers import type_name
         alltext = "\n".join(rec["code"] for rec in sr.programs)
         seen_rc = set()
+        def _ident_case(t):
+            # kernel K44: the real get_type_name_identifier on this type (rendering -> pasted text, registered alias)
+            if len(ident_cases) >= 80:
+                return
+            try:
+                case = list(c17_run.real_type_ident(t))
+            except Exception:
+                return
+            if case not in ident_cases:
+                ident_cases.append(case)
         for c in list(dict.fromkeys(list(d.get("ROOTS", [])) + [c for c in d.get("CLASSES", []) if isinstance(c, type)])):
+            _ident_case(c)
             for fn, t in c17_render.field_types(c):
+                _ident_case(t)
+                if len(import_cases) < 40:
+                    ic = c17_imports.case(t)
+                    if ic is not None and [ic[0], [list(o) for o in ic[1]]] not in import_cases:
+                        import_cases.append([ic[0], [list(o) for o in ic[1]]])
                 term = c17_render.to_rty(t)
                 if term is None:
                     continue
@@ -86,7 +104,7 @@ def run_one(schema: dict, rng, exercise: int) -> dict:
                 if (term, exp) not in seen_rc and len(render_cases) < 60:
                     seen_rc.add((term, exp))
                     render_cases.append([term, exp])
-                # the defaultdict factory is the rendering of the value type pasted as code (unpack.py:1281-1288)
+                # the defaultdict factory is the identifier of the value type pasted as code (unpack.py unpack_collection, defaultdict branch)
                 import collections as _c
                 import typing as _t
                 if _t.get_origin(t) is _c.defaultdict and len(_t.get_args(t)) == 2 and c in d.get("ROOTS", []):
@@ -96,11 +114,14 @@ def run_one(schema: dict, rng, exercise: int) -> dict:
                         fexp = None
                     own_f = [rec["code"] for rec in sr.programs
                              if f"Argument for {c.__module__}.{c.__qualname__}.__mashumaro_from_" in rec["code"] and "collections.defaultdict(" in rec["code"]]
-                    if fexp is not None and "<locals>" not in fexp:
+                    if fexp is not None:
+                        # a type reference like every other one (get_type_name_identifier): the rendering itself, or its
+                        # clean_id alias when the rendering names a local class
+                        fid = c17_run.clean(fexp) if "<locals>" in fexp else fexp
                         for code in own_f:
                             contain["checked"] += 1
-                            if f"collections.defaultdict({fexp}, " not in code:
-                                contain["missing"].append(f"{c.__name__}.{fn}: defaultdict factory {fexp}")
+                            if f"collections.defaultdict({fid}, " not in code:
+                                contain["missing"].append(f"{c.__name__}.{fn}: defaultdict factory {fid}")
                 fld = next((f for f in dataclasses.fields(c) if f.name == fn), None)
                 if (c in d.get("ROOTS", []) and fld is not None and fld.default is dataclasses.MISSING
                         and fld.default_factory is dataclasses.MISSING and fld.init):
@@ -112,7 +133,7 @@ def run_one(schema: dict, rng, exercise: int) -> dict:
                         if f"MissingField('{fn}',{exp},cls)" not in code and f"MissingField('{fn}',{c17_run.clean(exp)},cls)" not in code:
                             contain["missing"].append(f"{c.__name__}.{fn}: {exp}")
     out = {"idx": schema["idx"], "module": schema["module"], "tags": schema["tags"], "defloc": schema["defloc"],
-           "render_cases": render_cases, "render_contain": contain,
+           "render_cases": render_cases, "ident_cases": ident_cases, "import_cases": import_cases, "render_contain": contain,
            "build_error": (type(sr.build_error).__name__ + ": " + str(sr.build_error)[:200]) if sr.build_error else None,
            "findings": fs, "programs": progs, "calls": sr.calls, "errors_seen": sr.errors_seen, "info": sr.info,
            "attr_reads": sorted(set(reads)), "attr_sets": sorted(set(sets)),
